@@ -97,7 +97,14 @@ type opT struct {
 	Clusters   []string   // cluster names the operation addresses
 	Hosts      []string   // host ids
 	Localities [][]string // kXdsEDS: host ids per locality
+	More       []edsT     // kXdsEDS: further assignments of the same response (after Clusters[0]/Localities)
 	XdsCluster string     // kXdsCDS: id of the envoy cluster message
+}
+
+// edsT is one ClusterLoadAssignment of a multi-assignment endpoint response.
+type edsT struct {
+	Cluster    string
+	Localities [][]string
 }
 
 // class names the operation class in finding keys.
@@ -297,6 +304,26 @@ func buildAlphabet() []*opT {
 		}
 		add(&opT{Kind: kXdsEDS, Clusters: []string{"c1"}, Localities: ls, Name: fmt.Sprintf("xds-%s(c1,[%s])", kXdsEDS, strings.Join(parts, ","))})
 	}
+	// one endpoint response carrying several assignments, one of them possibly for a cluster
+	// that does not exist (c9 never does; c1 / c2 may have been removed): each assignment is
+	// applied on its own, a rejected one changes nothing
+	for _, as := range [][]edsT{
+		{{"c9", [][]string{{"h1", "h2"}}}, {"c1", [][]string{{"h3"}}}},
+		{{"c1", [][]string{{"h1"}}}, {"c2", [][]string{{"h2"}, {"h3"}}}},
+		{{"c2", [][]string{{"h1"}}}, {"c9", [][]string{{"h2"}}}, {"c1", [][]string{{"h3"}, {"h1b"}}}},
+		{{"c1", [][]string{{"h1", "h2"}}}, {"c2", nil}},
+	} {
+		var parts, names []string
+		for _, a := range as {
+			var ls []string
+			for _, l := range a.Localities {
+				ls = append(ls, "{"+strings.Join(l, ",")+"}")
+			}
+			parts = append(parts, a.Cluster+":["+strings.Join(ls, ",")+"]")
+			names = append(names, a.Cluster)
+		}
+		add(&opT{Kind: kXdsEDS, Clusters: names, Localities: as[0].Localities, More: as[1:], Name: fmt.Sprintf("xds-%s(%s)", kXdsEDS, strings.Join(parts, " "))})
+	}
 	for _, x := range []string{"eds-c1", "static-c2"} {
 		add(&opT{Kind: kXdsCDS, XdsCluster: x, Clusters: []string{mkXdsCluster(x).Name}, Name: fmt.Sprintf("xds-%s(%s)", kXdsCDS, x)})
 	}
@@ -384,7 +411,11 @@ func (u *universe) apply(o *opT) (err error, panicked string) {
 	case kClusterDel:
 		err = u.ad.TriggerClusterDel(o.Clusters...)
 	case kXdsEDS:
-		err = u.cvt.ConvertUpdateEndpoints([]*envoy_config_endpoint_v3.ClusterLoadAssignment{mkCLA(o.Clusters[0], o.Localities)})
+		clas := []*envoy_config_endpoint_v3.ClusterLoadAssignment{mkCLA(o.Clusters[0], o.Localities)}
+		for _, a := range o.More {
+			clas = append(clas, mkCLA(a.Cluster, a.Localities))
+		}
+		err = u.cvt.ConvertUpdateEndpoints(clas)
 	case kXdsCDS:
 		u.cvt.ConvertUpdateClusters([]*envoy_config_cluster_v3.Cluster{mkXdsCluster(o.XdsCluster)})
 	default:
@@ -767,6 +798,25 @@ func (m *model) step(o *opT, err error) (cmpRouters, cmpClusters, adoptClusters 
 		return []string{o.RouterName}, nil, nil
 	}
 	// cluster operations
+	if o.Kind == kXdsEDS && len(o.More) > 0 {
+		// every assignment of the response stands for itself: one for an existing cluster yields
+		// exactly the union of ITS endpoints, one for a missing cluster is rejected (the call then
+		// reports an error) and changes nothing - the cluster stays absent
+		for _, a := range append([]edsT{{o.Clusters[0], o.Localities}}, o.More...) {
+			if c := m.clusters[a.Cluster]; c != nil {
+				c.hosts = map[string]string{}
+				for _, l := range a.Localities {
+					for _, h := range conv.ConvertEndpointsConfig(mkLocality(l)) {
+						if _, dup := c.hosts[h.Address]; !dup {
+							c.hosts[h.Address] = descOfCfg(h)
+						}
+					}
+				}
+			}
+			cmpClusters = append(cmpClusters, a.Cluster)
+		}
+		return
+	}
 	if err != nil {
 		// a rejected update: absent objects must stay absent (removed objects are gone);
 		// what happens to existing ones is not fixed.
